@@ -644,8 +644,14 @@ func TestVerif_C07(t *testing.T) {
 		}
 		// a REQ issued by a subscriber while it is not reading (its buffer is full by now)
 		// must still be answered by its EOSE once it reads again
-		for _, c := range stalled {
-			c.s.Put(&mocrelay.ClientReqMsg{SubscriptionID: "late", ReqFilters: []*mocrelay.ReqFilter{{Kinds: []int64{42}}}})
+		// (a handler may leave it unread until its own output moves again, so it is offered
+		// from a goroutine of its own for the whole stall)
+		lateTaken := make([]chan bool, len(stalled))
+		for k, c := range stalled {
+			lateTaken[k] = make(chan bool, 1)
+			go func(c *rConn, ch chan bool) {
+				ch <- c.s.PutWithin(&mocrelay.ClientReqMsg{SubscriptionID: "late", ReqFilters: []*mocrelay.ReqFilter{{Kinds: []int64{42}}}}, 3*vk.WaitBound)
+			}(c, lateTaken[k])
 		}
 		total := nPub * m
 		// draining subscribers must have everything
@@ -695,7 +701,11 @@ func TestVerif_C07(t *testing.T) {
 			rep.Count("stalled_received", int64(len(c.deliveries())))
 			rep.Count("stalled_dropped", int64(total-len(c.deliveries())))
 		}
-		for _, c := range stalled {
+		for k, c := range stalled {
+			if !<-lateTaken[k] {
+				rep.Violation("backpressure/req-not-taken-after-resume", "a REQ offered while the subscriber was not reading was still not taken after it had resumed reading and received its backlog", map[string]any{"scenario": scenario})
+				return
+			}
 			gotEOSE := false
 			deadline := time.Now().Add(vk.WaitBound)
 			for !gotEOSE && time.Now().Before(deadline) {
